@@ -312,7 +312,7 @@ static inline Spec gen_spec(Rng &r, const GenOpts &g) {
 		}
 		if (bad) continue;
 		s.coef.resize(tot);
-		int cf = (int)r.below(7);
+		int cf = (int)r.below(8);
 		const char *cfn = "normal";
 		double cmag = std::pow(10.0, (double)r.range(-3, 3));
 		for (size_t i = 0; i < tot; i++) {
@@ -323,6 +323,7 @@ static inline Spec gen_spec(Rng &r, const GenOpts &g) {
 			case 2: c = (float)((r.U() - 0.5) * 1e30); cfn = "huge"; break;
 			case 3: c = (float)((r.U() - 0.5) * 1e-30); cfn = "tiny"; break;
 			case 4: c = (float)(r.U() * cmag); cfn = "positive"; break;
+			case 7: c = (float)((r.U() - 0.5) * 2e-39); cfn = "subnormal"; break; // products and sums in the subnormal range of float: any path running with flush-to-zero differs
 			default: c = (float)((r.U() - 0.5) * cmag); if (r.coin(0.02)) c = r.coin(0.5) ? 0.f : -0.f; break;
 			}
 			s.coef[i] = c;
